@@ -423,6 +423,7 @@ class Replace:
 
     raises = ["AssertionError", "Exception"]
     allow_star = True
+    setcomp_trigger = True
     dict_attrs = ["FIELDS_SET_ATTR"]
     callable_attrs = ["default_factory"]
     globals = dict(
